@@ -79,6 +79,12 @@ impl Rw {
         let s: Vec<&str> = segs.iter().map(|s| s.as_str()).collect();
         match s.as_slice() {
             ["std" | "core", "sync", "atomic", "compiler_fence"] => Some((v(&["crate", "kshim", "compiler_fence"]), "sync")),
+            // plain data types that loom shares with std (its locks return std's LockResult)
+            ["std", "sync", x @ ("PoisonError" | "TryLockError" | "TryLockResult" | "LockResult"), rest @ ..] => {
+                let mut n = v(&["crate", "kshim", x]);
+                n.extend(rest.iter().map(|x| x.to_string()));
+                Some((n, "sync-types"))
+            }
             ["std" | "core", "sync", rest @ ..] => {
                 let mut n = if self.sync_root.is_empty() { v(&["loom", "sync"]) } else { self.sync_root.clone() };
                 n.extend(rest.iter().map(|x| x.to_string()));
@@ -686,7 +692,62 @@ fn extract_std_locks(path: &str, src: &str) -> (String, Rw, usize) {
 
 /// Semantic guard: nothing that must be intercepted may survive the rewrite.  Works on the token
 /// text, so it also sees macro arguments (which the syn visitor cannot rewrite).
+/// The token text without `#[doc = "…"]` attributes (documentation is not code: a doc comment that
+/// mentions `once_cell::` or `std::sync` must not trip the guard below).
+fn strip_doc_attrs(txt: &str) -> String {
+    let b: Vec<char> = txt.chars().collect();
+    let mut out = String::with_capacity(txt.len());
+    let mut i = 0;
+    while i < b.len() {
+        if b[i] == '#' {
+            // # [!] [ doc = "…" ]
+            let mut j = i + 1;
+            let skip_ws = |j: &mut usize| {
+                while *j < b.len() && b[*j].is_whitespace() {
+                    *j += 1;
+                }
+            };
+            skip_ws(&mut j);
+            if j < b.len() && b[j] == '!' {
+                j += 1;
+                skip_ws(&mut j);
+            }
+            if j < b.len() && b[j] == '[' {
+                j += 1;
+                skip_ws(&mut j);
+                if b[j..].iter().take(3).collect::<String>() == "doc" {
+                    j += 3;
+                    skip_ws(&mut j);
+                    if j < b.len() && b[j] == '=' {
+                        j += 1;
+                        skip_ws(&mut j);
+                        if j < b.len() && b[j] == '"' {
+                            j += 1;
+                            while j < b.len() && b[j] != '"' {
+                                if b[j] == '\\' {
+                                    j += 1;
+                                }
+                                j += 1;
+                            }
+                            j += 1;
+                            skip_ws(&mut j);
+                            if j < b.len() && b[j] == ']' {
+                                i = j + 1;
+                                continue;
+                            }
+                        }
+                    }
+                }
+            }
+        }
+        out.push(b[i]);
+        i += 1;
+    }
+    out
+}
+
 fn check_survivors(path: &str, txt: &str) {
+    let txt = &strip_doc_attrs(txt);
     let flat: String = txt.split_whitespace().collect::<Vec<_>>().join("");
     for bad in [
         "std::sync", "core::sync", "alloc::sync", "std::thread", "core::thread", "once_cell::", "parking_lot", "crossbeam", "spin::",
